@@ -235,10 +235,11 @@ pub fn run_c13(tier: Tier) -> i32 {
     ctx.assume("the simulated server answers `probe <i>` with a reply that identifies i, so a swapped or shifted pairing is visible");
     let mut plans = Vec::new();
     for n in 0..=5usize {
-        plans.push(Plan { scn: c13_scenario(Op::ProbeVec(probe_ids(n)), n == 3), bound: if n == 3 { tier.pick(2, 3) } else { tier.pick(1, 2) } });
+        // thorough: every shape with a notification and a split, one deviation deeper
+        plans.push(Plan { scn: c13_scenario(Op::ProbeVec(probe_ids(n)), n == 3 || tier == Tier::Thorough), bound: if n == 3 { tier.pick(2, 5) } else { tier.pick(1, 4) } });
     }
     for n in 1..=8usize {
-        plans.push(Plan { scn: c13_scenario(Op::ProbeTuple(probe_ids(n)), n == 2 || n == 8), bound: if n == 2 || n == 8 { tier.pick(2, 3) } else { tier.pick(1, 2) } });
+        plans.push(Plan { scn: c13_scenario(Op::ProbeTuple(probe_ids(n)), n == 2 || n == 8 || tier == Tier::Thorough), bound: if n == 2 || n == 8 { tier.pick(2, 5) } else { tier.pick(1, 4) } });
     }
     // an abandoned (cancelled) typed list must not shift the pairing of the next one
     {
@@ -619,7 +620,7 @@ pub fn run_c17(tier: Tier) -> i32 {
     ctx.assume("the simulated server serves readpicture / albumart like MPD: size, optional type, binary chunk of at most the binary limit starting at the requested offset; an absent embedded picture is an empty OK reply");
     let mut plans: Vec<Plan> = c17_grid(tier).into_iter().map(|scn| Plan { scn, bound: 0 }).collect();
     for scn in c17_explore_scenarios() {
-        plans.push(Plan { scn, bound: tier.pick(2, 3) });
+        plans.push(Plan { scn, bound: tier.pick(2, 5) });
     }
     let grid = plans.len();
     let (mut cov, viol) = run_plans(
